@@ -12,6 +12,9 @@ pub struct GwCfg {
     pub retention: u64,
     /// indices into `GCfg::pool`
     pub initial: Vec<usize>,
+    /// deploy with the owner also being the operator (role aliasing at construction)
+    #[serde(default)]
+    pub operator_is_owner: bool,
 }
 
 #[derive(Serialize, Deserialize, Clone, Debug)]
@@ -148,7 +151,8 @@ pub enum GOp {
     /// `execute` on a destination application
     Deliver {
         gw: u8,
-        /// 0 = shipped example, 1 = minimal app
+        /// 0 = shipped example, 1 = minimal app, 2 / 3 = the same two apps deployed with a
+        /// gateway address behind which there is no gateway (they must refuse everything)
         app: u8,
         msg: MsgSpec,
         abort: Option<u16>,
